@@ -32,3 +32,336 @@ theorem bagQ_nodup {ex} {ts : TState} (h : MInv ex ts.s) : (bagQ ts).Nodup := by
       subst this
       exact hne (h.oinv.own a.1 a.2 b.1 b.2 o1 (alookup_of_mem h.core.tnd ha) (alookup_of_mem h.core.tnd hb) ho1 ho2)
     all_goals simp_all
+
+/-! ### `cancelAllQueuedOperations` -/
+
+theorem foldl_complete_tinv {exo} {h : Hints} {x : Extras} {r : Resp} (ids : List Nat) :
+    ∀ {ts ts' : TState}, TInvX (fun _ => False) exo [] ts → OID ts.s →
+      ids.foldlM (fun ts t => tComplete h x ts t r false) ts = .ok ts' →
+      TInvX (fun _ => False) exo [] ts' ∧ OID ts'.s ∧ (¬ (r.code = cOK ∧ r.exit = 0) →
+        (∀ k ∈ ids, ∀ t, alookup k ts.s.tasks = some t → ∃ t', alookup k ts'.s.tasks = some t' ∧ t'.response.isSome = true) ∧
+        (∀ k, k ∉ ids → alookup k ts'.s.tasks = alookup k ts.s.tasks)) := by
+  induction ids with
+  | nil =>
+    intro ts ts' hT ho hh
+    cases hh
+    exact ⟨hT, ho, fun _ => ⟨fun k hk => (nomatch hk), fun _ _ => rfl⟩⟩
+  | cons a rest ih =>
+    intro ts ts' hT ho hh
+    rw [List.foldlM_cons] at hh
+    simp only [bind, Except.bind] at hh
+    split at hh
+    · cases hh
+    rename_i ts1 h1
+    obtain ⟨hT1, ho1, hp1⟩ := tComplete_tinv hT ho h1
+    obtain ⟨hT', ho', hp'⟩ := ih hT1 ho1 hh
+    refine ⟨hT', ho', fun hr => ?_⟩
+    obtain ⟨d1, d2, _⟩ := hp1 hr (Or.inl rfl)
+    obtain ⟨e1, e2⟩ := hp' hr
+    constructor
+    · intro k hk t hkt
+      by_cases hkr : k ∈ rest
+      · by_cases hka : k = a
+        · subst hka
+          obtain ⟨t', h', _⟩ := d1
+          exact e1 k hkr t' h'
+        · exact e1 k hkr t (by rw [d2 k hka]; exact hkt)
+      · have hka : k = a := by
+          rcases List.mem_cons.mp hk with e | e
+          · exact e
+          · exact absurd e hkr
+        subst hka
+        obtain ⟨t', h', hr', _⟩ := d1
+        exact ⟨t', by rw [e2 k hkr]; exact h', hr'⟩
+    · intro k hk
+      have hka : k ≠ a := fun e => hk (by rw [e]; exact List.mem_cons_self)
+      have hkr : k ∉ rest := fun e => hk (List.mem_cons_of_mem _ e)
+      rw [e2 k hkr, d2 k hka]
+
+theorem cancelOK : CancelOK := by
+  intro h x ts ts' q r hI hh
+  unfold tCancelAllQueued at hh
+  exact (foldl_complete_tinv _ hI.x (OID.of_inv hI.inv) hh).1.ts
+
+/-! ### `sizeClassQueue.remove` -/
+
+theorem tRemoveScq_ts {h : Hints} {x : Extras} {ts ts' : TState} {q : ScqId} (hI : TInv ts)
+    (hh : tRemoveScq h x ts q = .ok ts') : TS [] ts' := by
+  unfold tRemoveScq at hh
+  simp only [bind, Except.bind, pure, Except.pure] at hh
+  split at hh
+  · cases hh
+  rename_i ts1 hc
+  split at hh
+  · cases hh
+  rename_i hguard
+  unfold tCancelAllQueued at hc
+  obtain ⟨hT1, _, hp⟩ := foldl_complete_tinv _ hI.x (OID.of_inv hI.inv) hc
+  obtain ⟨p1, p2⟩ := hp (by simp [cOK, cUnavailable])
+  have hnw : ∀ wk ∈ ts1.s.workers, wk.scq ≠ q := by
+    intro wk hwk e
+    apply hguard
+    exact List.any_eq_true.mpr ⟨wk, hwk, by simpa using e⟩
+  have hnt : ∀ k t, alookup k ts1.s.tasks = some t → t.scq = q → t.worker = none ∧ t.queued = false := by
+    intro k t hk hq
+    have hwn : t.worker = none := by
+      cases hw : t.worker with
+      | none => rfl
+      | some qw =>
+        exfalso
+        obtain ⟨q', w⟩ := qw
+        have e := hT1.side.wq k t q' w hk hw
+        obtain ⟨wk, hwk, _⟩ := hT1.inv.core.p2 k t q' w hk hw
+        exact hnw wk (wfind_mem hwk) ((wfind_key hwk).1.trans (e.trans hq))
+    refine ⟨hwn, ?_⟩
+    cases hqd : t.queued with
+    | false => rfl
+    | true =>
+      exfalso
+      have hrn := (hT1.inv.core.q1 k t hk hqd).2
+      by_cases hkm : k ∈ (ts.s.tasks.filter (fun p => p.2.scq = q ∧ p.2.queued ∧ p.2.response.isNone ∧ p.2.worker.isNone)).map (·.1)
+      · obtain ⟨kt, hkt, e⟩ := List.mem_map.mp hkm
+        have hkt' := (List.mem_filter.mp hkt).1
+        have hl : alookup k ts.s.tasks = some kt.2 := by rw [← e]; exact alookup_of_mem hI.inv.core.tnd hkt'
+        obtain ⟨t', h', hr'⟩ := p1 k hkm kt.2 hl
+        rw [hk] at h'; cases h'
+        rw [hrn] at hr'; cases hr'
+      · have hl : alookup k ts.s.tasks = some t := by rw [← p2 k hkm]; exact hk
+        apply hkm
+        refine List.mem_map.mpr ⟨(k, t), List.mem_filter.mpr ⟨mem_of_alookup hl, ?_⟩, rfl⟩
+        simp [hq, hqd, hrn, hwn]
+  split at hh
+  · cases hh
+    exact (dropScq_ts (s' := { ts1.s with scqs := ts1.s.scqs.filter (fun y => y.id ≠ q) }) hT1 hnw hnt rfl rfl rfl rfl).1
+  · cases hh
+    exact (dropScq_ts (s' := { ts1.s with scqs := (ts1.s.scqs.filter (fun y => y.id ≠ q)), pqs := (ts1.s.pqs.filter (fun p => p.id ≠ q.pq)) }) hT1 hnw hnt rfl rfl rfl rfl).2
+
+/-! ### `removeStaleWorker` -/
+
+/-- the part of `removeStaleWorker` after the worker's task was completed -/
+def tStaleTail (ts : TState) (q : ScqId) (w : WId) (removalTime : Nat) : M TState :=
+  let s := { ts.s with workers := ts.s.workers.filter (fun y => ¬ (y.scq = q ∧ y.id = w)) }
+  let ts := (ts.dropWorkerTree q w).setS s
+  match s.scq? q with
+  | some sq =>
+    if !s.workers.any (fun y => y.scq = q) ∧ sq.mayBeRemoved
+    then return ts.setS (s.addCleanup (removalTime + s.cfg.pqTimeout) (.scq q)) else return ts
+  | none => return ts
+
+theorem tStaleTail_ts {ts ts' : TState} {q : ScqId} {w : WId} {rt : Nat} {wk : Worker} (hI : TInv ts)
+    (hw : wfind ts.s.workers q w = some wk) (hwt : wk.task = none) (hwp : wk.parked = false)
+    (hh : tStaleTail ts q w rt = .ok ts') : TS [] ts' := by
+  have hd := dropWorker_ts (s' := { ts.s with workers := ts.s.workers.filter (fun y => ¬ (y.scq = q ∧ y.id = w)) })
+    hI.x hw hwt hwp rfl rfl rfl (op?_of_ops rfl)
+  unfold tStaleTail at hh
+  simp only [pure, Except.pure] at hh
+  split at hh
+  · split at hh
+    · cases hh; exact hd.sframe (addCleanup_sframe _ _ _)
+    · cases hh; exact hd
+  · cases hh; exact hd
+
+theorem tRemoveStaleWorker_ts {h : Hints} {x : Extras} {ts ts' : TState} {q : ScqId} {w : WId} {rt : Nat}
+    (hI : TInv ts) (hh : tRemoveStaleWorker h x ts q w rt = .ok ts') : TS [] ts' := by
+  unfold tRemoveStaleWorker at hh
+  simp only [bind, Except.bind, pure, Except.pure, worker?_def] at hh
+  split at hh
+  · rename_i wk hw
+    split at hh
+    · cases hh
+    rename_i hnp
+    have hnp' : wk.parked = false := by simpa using hnp
+    split at hh
+    · rename_i tid hwt
+      split at hh
+      · cases hh
+      rename_i ts1 hc
+      obtain ⟨t, htk, _⟩ := hI.inv.core.p1 q w wk tid hw hwt
+      have hex : (alookup tid ts.s.tasks).isSome = true := by rw [htk]; rfl
+      obtain ⟨hI1, hcp, _⟩ := inv_of_ref (tComplete_ref h x ts tid _ false) (complete_spec hI.inv hex) hc
+      have hw1 := complete_clears hI.inv hI1 hcp hw hwt hnp'
+      exact tStaleTail_ts (TInv.mk' hI1 (completeOK h x ts ts1 tid _ false hI hex hc)) hw1 rfl hnp' hh
+    · rename_i hwt
+      exact tStaleTail_ts hI hw hwt hnp' hh
+  · cases hh; exact hI.ts
+
+/-! ### `operation.remove` -/
+
+/-- `operation.remove` after the operation has left `operationsNameMap` -/
+def tRemoveOpRest (h : Hints) (x : Extras) (ts : TState) (op : Op) (o : Nat) : M TState := do
+  let some t := ts.s.task? op.task | throw "removeOp: no task"
+  let ts ← if t.ops.length = 1 then
+      tComplete h x ts t.id ⟨cCanceled, 0, 0, .noWaiters⟩ false
+    else pure (ts.removeOpTree t o)
+  let some t := ts.s.task? op.task | throw "removeOp: no task"
+  let t := { t with ops := t.ops.filter (· ≠ o) }
+  if t.ops.isEmpty then return ((ts.dropOX o).dropTX t.id).setS { ts.s with tasks := aerase t.id ts.s.tasks }
+  return (ts.dropOX o).setS (ts.s.setTask t)
+
+theorem tRemoveOp_eq (h : Hints) (x : Extras) (ts : TState) (o : Nat) :
+    tRemoveOp h x ts o = match ts.s.op? o with
+      | some op => tRemoveOpRest h x (ts.setS { ts.s with ops := aerase o ts.s.ops }) op o
+      | none => pure ts := by
+  unfold tRemoveOp tRemoveOpRest
+  cases ts.s.op? o <;> rfl
+
+theorem filter_ne_nil_of {l : List Nat} {o : Nat} (hnd : l.Nodup) (hm : o ∈ l) (hl : l.length ≠ 1) :
+    (l.filter (· ≠ o)).isEmpty = false := by
+  cases hf : (l.filter (· ≠ o)).isEmpty with
+  | false => rfl
+  | true =>
+    exfalso
+    have hall : ∀ a ∈ l, a = o := by
+      intro a ha
+      by_cases e : a = o
+      · exact e
+      · have : a ∈ l.filter (· ≠ o) := List.mem_filter.mpr ⟨ha, by simpa using e⟩
+        rw [List.isEmpty_iff.mp hf] at this; cases this
+    match l, hnd, hm, hl, hall with
+    | [], _, hm, _, _ => cases hm
+    | [a], _, _, hl, _ => exact hl rfl
+    | a :: b :: r, hnd, _, _, hall =>
+      have h1 := hall a (by simp)
+      have h2 := hall b (by simp)
+      rw [List.nodup_cons] at hnd
+      exact hnd.1 (by rw [h1, ← h2]; simp)
+
+theorem tRemoveOpRest_ts {exo} {h : Hints} {x : Extras} {ts0 ts' : TState} {op : Op} {o : Nat} {t : Task}
+    (hT0 : TInvX (fun _ => False) exo [] ts0) (hoid : OID ts0.s) (hno : ts0.s.op? o = none)
+    (ht0 : alookup op.task ts0.s.tasks = some t) (hmem : o ∈ t.ops)
+    (hh : tRemoveOpRest h x ts0 op o = .ok ts') : TS [] ts' := by
+  have hid : t.id = op.task := (hT0.inv.core.tid _ _ ht0).1
+  have ht : alookup t.id ts0.s.tasks = some t := by rw [hid]; exact ht0
+  have hnd := (hT0.inv.oinv.o3 _ _ ht).1
+  unfold tRemoveOpRest at hh
+  simp only [bind, Except.bind, pure, Except.pure, task?_def, ht0] at hh
+  split at hh
+  · -- the last operation: the task is completed first
+    rename_i hlen
+    split at hh
+    · cases hh
+    rename_i v hc
+    obtain ⟨hT1, hoid1, hp⟩ := tComplete_tinv hT0 hoid hc
+    obtain ⟨⟨t1, h1, hr1, hops1⟩, _, hopn⟩ := hp (by simp [cCanceled, cOK]) (Or.inl rfl)
+    rw [hid] at h1
+    simp only [h1] at hh
+    have hops : t1.ops = [o] := by
+      rw [hops1 t ht]
+      obtain ⟨a, ha⟩ := List.length_eq_one_iff.mp hlen
+      rw [ha] at hmem ⊢
+      simp only [List.mem_singleton] at hmem
+      rw [hmem]
+    have hid1 : t1.id = op.task := (hT1.inv.core.tid _ _ h1).1
+    have h1' : alookup t1.id v.s.tasks = some t1 := by rw [hid1]; exact h1
+    have hemp : (List.filter (fun x => decide (x ≠ o)) t1.ops).isEmpty = true := by rw [hops]; simp
+    simp only [hemp, if_true] at hh
+    cases hh
+    have htw : t1.worker = none := by
+      cases hw : t1.worker with
+      | none => rfl
+      | some _ =>
+        have := hT1.inv.core.p3 _ _ h1' (by rw [hw]; rfl)
+        rw [this] at hr1; cases hr1
+    have hq : t1.queued = false := by
+      cases hq : t1.queued with
+      | false => rfl
+      | true =>
+        have := (hT1.inv.core.q1 _ _ h1' hq).2
+        rw [this] at hr1; cases hr1
+    refine dropTask_ts hT1 h1' htw hq ?_ rfl rfl rfl ?_
+    · intro k t' hk ho
+      exact hT1.inv.oinv.own k t' t1.id t1 o hk h1' ho (by rw [hops]; simp)
+    · intro o' op' ho'
+      have ho'' : v.s.op? o' = some op' := ho'
+      refine ⟨?_, op', ho'', rfl, rfl⟩
+      intro e; subst e
+      rw [hopn _ hno] at ho''; cases ho''
+  · rename_i hlen
+    simp only [removeOpTree_s, ht0] at hh
+    have hne := filter_ne_nil_of hnd hmem hlen
+    simp only [hne, Bool.false_eq_true, if_false] at hh
+    cases hh
+    refine removeOp_ts hT0 ht hmem hnd ?_ (bagQ_nodup hT0.inv) ?_ rfl rfl rfl rfl ?_
+    · intro k t' hk ho
+      exact hT0.inv.oinv.own k t' t.id t o hk ht ho hmem
+    · intro hr hw
+      rcases hT0.inv.core.q2 _ _ ht hr with a | a | a
+      · exact a
+      · rw [hw] at a; cases a
+      · exact absurd a id
+    · intro o' op' ho'
+      have ho'' : ts0.s.op? o' = some op' := ho'
+      refine ⟨?_, op', ho'', rfl, rfl⟩
+      intro e; subst e
+      rw [hno] at ho''; cases ho''
+
+theorem tRemoveOp_ts {h : Hints} {x : Extras} {ts ts' : TState} {o : Nat} (hI : TInv ts)
+    (hh : tRemoveOp h x ts o = .ok ts') : TS [] ts' := by
+  rw [tRemoveOp_eq] at hh
+  split at hh
+  · rename_i op hop
+    rw [op?_def] at hop
+    obtain ⟨t, ht, hmem⟩ := hI.inv.oinv.o1 o op hop
+    have hnd := hI.inv.oinv.ond
+    refine tRemoveOpRest_ts (exo := fun _ => False) (t := t)
+      (hI.x.frame (eraseOp_sframe ts.s o hnd) rfl rfl) ?_ ?_ ht hmem hh
+    · intro k op' hk
+      have hk' : alookup k (aerase o ts.s.ops) = some op' := hk
+      rw [alookup_aerase _ _ _ hnd] at hk'
+      split at hk'
+      · cases hk'
+      · exact (hI.inv.oinv.oid k op' hk').1
+    · show alookup o (aerase o ts.s.ops) = none
+      exact alookup_aerase_self o ts.s.ops hnd
+  · cases hh; exact hI.ts
+
+/-! ### `cleanupQueue.run`, `bq.enter` -/
+
+theorem tRunCleanup_tinv {h : Hints} {x : Extras} : ∀ (fuel : Nat) {ts ts' : TState}, TInv ts →
+    tRunCleanup h x fuel ts = .ok ts' → TInv ts' := by
+  intro fuel
+  induction fuel with
+  | zero => intro ts ts' hI hh; cases hh; exact hI
+  | succ n ih =>
+    intro ts ts' hI hh
+    unfold tRunCleanup at hh
+    split at hh
+    · cases hh; exact hI
+    rename_i e rest hp
+    obtain ⟨hmem, hsub⟩ := popDue_some hp
+    have hI0 : Inv { ts.s with cleanup := rest } :=
+      ⟨hI.inv.core, hI.inv.oinv, hI.inv.sinv.cleanup_sub hsub, hI.inv.linv⟩
+    have hT0 : TInv (ts.setS { ts.s with cleanup := rest }) :=
+      TInv.mk' hI0 (hI.ts.sframe (setCleanup_sframe _ _))
+    simp only [bind, Except.bind] at hh
+    split at hh
+    · rename_i q w hk
+      split at hh
+      · cases hh
+      rename_i ts1 hcb
+      exact ih (TInv.mk' (inv_of_ref (tRemoveStaleWorker_ref h x _ q w _) (removeStaleWorker_spec hI0) hcb).1
+        (tRemoveStaleWorker_ts hT0 hcb)) hh
+    · rename_i o hk
+      split at hh
+      · cases hh
+      rename_i ts1 hcb
+      refine ih (TInv.mk' (inv_of_ref (tRemoveOp_ref h x _ o) (removeOp_spec hI0 ?_) hcb).1 (tRemoveOp_ts hT0 hcb)) hh
+      intro op hop; exact hI.inv.sinv.s2 o op e hop hmem hk
+    · rename_i q hk
+      split at hh
+      · cases hh
+      rename_i ts1 hcb
+      exact ih (TInv.mk' (inv_of_ref (tRemoveScq_ref h x _ q) (removeScq_spec hI0) hcb).1 (tRemoveScq_ts hT0 hcb)) hh
+
+theorem tEnter_tinv {h : Hints} {x : Extras} {ts ts' : TState} {now : Nat} (hI : TInv ts)
+    (hh : tEnter h x ts now = .ok ts') : TInv ts' := by
+  unfold tEnter at hh
+  split at hh
+  · refine tRunCleanup_tinv _ (TInv.mk' ?_ ?_) hh
+    · exact hI.inv.of_same rfl rfl rfl rfl rfl rfl rfl rfl rfl rfl
+    · exact TS.of_scqids hI.ts rfl rfl rfl rfl
+  · cases hh; exact hI
+
+theorem enterOK : EnterOK := fun _ _ _ _ _ hI hh => (tEnter_tinv hI hh).ts
+
+end BbRe.Lemmas.SchedTree
